@@ -19,7 +19,7 @@ use crate::{
     },
 };
 
-pub const LINES: [&str; 16] = [
+pub const LINES: [&str; 17] = [
     "",
     "a",
     "-",
@@ -37,6 +37,8 @@ pub const LINES: [&str; 16] = [
     // whitespace that is NOT removed at line ends (RFC 9580 7.2 strips space and tab only)
     "a\u{c}",
     "b\u{a0} ",
+    // an armor boundary behind a blank: not dash-escaped by the writer, and not a boundary
+    " -----BEGIN PGP SIGNATURE-----",
 ];
 /// sub-alphabet for deeper texts: indices into LINES
 pub const SHAPES4: [u8; 4] = [0, 1, 2, 6];
@@ -241,6 +243,17 @@ fn run_text(c: &TextCase) -> Outcome {
                         format!("text \"{}\" signer {i}: {e}", esc(tb)),
                     );
                 }
+            }
+            // the sibling verifier: every signature is handed to the callback with the signed text
+            let many = m2.verify_many(|_, sig, data| {
+                if ks.iter().any(|k| sig.verify(&k.primary_key.public_key(), data).is_ok()) {
+                    Ok(())
+                } else {
+                    Err(pgp::errors::Error::from(std::io::Error::other("no signer key verifies this signature over the text handed to the callback")))
+                }
+            });
+            if let Err(e) = many {
+                o.push(format!("C16:{mark}reread-does-not-verify"), format!("text \"{}\" through verify_many: {e}", esc(tb)));
             }
             if m2.signatures().len() != ks.len() {
                 o.push(
@@ -526,7 +539,7 @@ pub fn check(ctx: &Ctx) {
     ctx.run_space(
         "texts",
         true,
-        "texts = sequences of lines from a 16-line alphabet (dash lines, armor boundary strings, trailing blanks, inner CR, UTF-8, lines ending in FF / NBSP) up to 4 (thorough 5) lines and from a 4-shape sub-alphabet up to 8 (10) lines x line ending {LF,CRLF,mixed} x final {none,newline,lone CR} x {sign v4, sign v6, new SHA-512, new_many 2 signers}: sign -> signed_text = RFC form -> armored -> independent reader sees the text -> from_string / from_armor / Any::from_string -> same text, verifies; non-trivial = text contains '-', blank, TAB or CR",
+        "texts = sequences of lines from a 17-line alphabet (dash lines, armor boundary strings - also behind a leading blank -, trailing blanks, inner CR, UTF-8, lines ending in FF / NBSP) up to 4 (thorough 5) lines and from a 4-shape sub-alphabet up to 8 (10) lines x line ending {LF,CRLF,mixed} x final {none,newline,lone CR} x {sign v4, sign v6, new SHA-512, new_many 2 signers}: sign -> signed_text = RFC form -> armored -> independent reader sees the text -> from_string / from_armor / Any::from_string -> same text, verifies (verify and verify_many); non-trivial = text contains '-', blank, TAB or CR",
         cases.into_par_iter(),
         run_text,
     );
